@@ -108,7 +108,7 @@ def hostile(tier, seed):
             for k in range(6):
                 o = {}
                 for _ in range(3):
-                    name, val = rnd.choice([("nx_core", rnd.choice([1, 2, 9])), ("ny_sol", rnd.choice([2, 4, 14])), ("y_boundary_guards", rnd.choice([0, 3, 5])), ("psinorm_sol", rnd.choice([1.01, 1.5, 2.5])), ("psinorm_core", rnd.choice([0.2, 0.99])), ("finecontour_Nfine", rnd.choice([8, 30, 400])), ("psi_spacing_separatrix_multiplier", rnd.choice([0.05, 3.0, None])), ("xpoint_poloidal_spacing_length", rnd.choice([0.005, 0.5])), ("orthogonal", rnd.choice([True, False]))])
+                    name, val = rnd.choice([("nx_core", rnd.choice([1, 2, 9])), ("ny_sol", rnd.choice([2, 4, 14])), ("y_boundary_guards", rnd.choice([0, 3, 5])), ("psinorm_sol", rnd.choice([1.01, 1.5, 2.5])), ("psinorm_core", rnd.choice([0.2, 0.99])), ("finecontour_Nfine", rnd.choice([8, 30, 400])), ("psi_spacing_separatrix_multiplier", rnd.choice([0.05, 3.0, None])), ("xpoint_poloidal_spacing_length", rnd.choice([0.005, 0.5])), ("orthogonal", rnd.choice([True, False])), ("nx_sol_inner", rnd.choice([2, 5])), ("nx_sol_outer", rnd.choice([2, 5])), ("poloidal_spacing_delta_psi", rnd.choice([1e-7, 1e-2])), ("wall_point_exclude_radius", rnd.choice([1e-6, 5e-2])), ("sfunc_checktol", rnd.choice([0.0, 1e-3])), ("leg_trace_atol", rnd.choice([1e-14, 1e-3])), ("finecontour_extend_prefactor", rnd.choice([0.5, 4.0])), ("nonorthogonal_xpoint_poloidal_spacing_range", rnd.choice([0.01, 2.0]))])
                     o[name] = val
                 s = cases.tok(topo, s=rnd.choice([1, -1]), fs=1, tag="hostile-rnd-%s-%d" % (topo, k))
                 s["opts"].update(o)
